@@ -115,7 +115,8 @@ def agp_rows(path):
         if not line.strip() or line.startswith("#"):
             continue
         f = line.rstrip("\n").split("\t")
-        if not scs or scs[-1]["name"] != f[0]:
+        # a new object starts where the name changes - or where the part number starts again at 1 (two scaffolds of one name in one file)
+        if not scs or scs[-1]["name"] != f[0] or f[3] == "1":
             scs.append({"name": f[0], "rows": []})
         if f[4] in ("U", "N"):
             scs[-1]["rows"].append({"k": "G", "name": f[6], "s": 1, "e": int(f[5]), "st": 0})
@@ -202,6 +203,8 @@ def run_scenario_cli(sc):
             for f in sorted(out.glob("*.agp")):
                 key = file_key(f.name)
                 scs = agp_rows(f)
+                if sc.get("keep_agp"):
+                    t.setdefault("agp_files", []).append({"file": f.name, "lines": [ln.split("\t") for ln in f.read_text().splitlines()]})
                 if key == "haplotig":
                     hap_written += len(scs)
                 for s in scs:
@@ -291,9 +294,15 @@ def export(run, name, tn, td, mode, maxedits, nrandom, maxperturb=0, simulate=No
         seen.add(k)
         if keep and not keep(o):
             continue
+        if o.pop("primary_ok", 1) == 0:
+            continue            # a Primary tag used inconsistently (PretextView!PrimaryOK): outside the tagged maps the properties speak about
         objs.append(o)
     if cap and len(objs) > cap:
-        objs = rng.sample(objs, cap)
+        # maps in Primary mode are few among the tagged ones: up to a third of the sample is reserved for them
+        prim = [o for o in objs if any("Primary" in p.get("tags", ()) for g in o["map"] for p in g["pieces"])]
+        rest = [o for o in objs if not any("Primary" in p.get("tags", ()) for g in o["map"] for p in g["pieces"])]
+        np_ = min(len(prim), cap // 3)
+        objs = rng.sample(prim, np_) + rng.sample(rest, min(len(rest), cap - np_))
     return objs, r
 
 
